@@ -9,7 +9,8 @@ def handlers : List (List String → Option String) := [
   Lou.Log.handle?,
   Lou.HyphProto.handle?,
   Lou.Meta.handle?,
-  Lou.ImageProto.handle?
+  Lou.ImageProto.handle?,
+  Lou.Cache.handle?
 ]
 
 def handleLine (line : String) : String :=
